@@ -254,6 +254,44 @@ fn collections(ctx: &mut Ctx) {
         }
     }
     if ctx.mine() {
+        // long and nested collections, with the one bad element far from both ends
+        for len in [7usize, 33, 100, 1000] {
+            for bad_at in [None, Some(len / 2), Some(len - 1)] {
+                ctx.count();
+                ctx.hit("collections:long");
+                let items: Vec<Value> = (0..len).map(|i| if Some(i) == bad_at { Value::Int(70_000) } else { Value::Int((i % 200) as i128) }).collect();
+                let src = Value::Vec(items.clone());
+                match (got(guard(|| Vec::<u16>::try_from(src.clone()))), bad_at) {
+                    (Got::Ok(xs), None) if xs.len() == len && xs.iter().enumerate().all(|(i, x)| *x as usize == i % 200) => {}
+                    (Got::Overflow, Some(_)) => {}
+                    (other, _) => bad(ctx, "Vec<u16>", "collection", format!("len {len}, bad at {bad_at:?}: {}", clip(format!("{other:?}"), 200)), &Value::Int(len as i128)),
+                }
+                let m: BTreeMap<String, Value> = items.iter().enumerate().map(|(i, v)| (format!("k{i:04}"), v.clone())).collect();
+                let src = Value::Map(m);
+                match (got(guard(|| HashMap::<String, u16>::try_from(src.clone()))), bad_at) {
+                    (Got::Ok(h), None) if h.len() == len && (0..len).all(|i| h.get(&format!("k{i:04}")).map(|x| *x as usize) == Some(i % 200)) => {}
+                    (Got::Overflow, Some(_)) => {}
+                    (other, _) => bad(ctx, "HashMap<String,u16>", "collection", format!("len {len}, bad at {bad_at:?}: {}", clip(format!("{other:?}"), 200)), &Value::Int(len as i128)),
+                }
+            }
+        }
+        let nested: Vec<Vec<u8>> = vec![vec![1, 2, 3], vec![], vec![255; 9]];
+        ctx.count();
+        match got(guard(|| Vec::<Vec<u8>>::try_from(Value::from(nested.clone())))) {
+            Got::Ok(x) if x == nested => ctx.hit("roundtrip:Vec<Vec<u8>>"),
+            other => bad(ctx, "Vec<Vec<u8>>", "roundtrip", format!("{other:?}"), &Value::None),
+        }
+        let bad_nested = Value::Vec(vec![Value::Vec(vec![Value::Int(1)]), Value::Vec(vec![Value::Int(1), Value::Int(256)])]);
+        ctx.count();
+        if !matches!(got(guard(|| Vec::<Vec<u8>>::try_from(bad_nested.clone()))), Got::Overflow) {
+            bad(ctx, "Vec<Vec<u8>>", "collection", "a nested out-of-range element must fail the whole extraction".into(), &bad_nested);
+        }
+        let map_of_vecs: BTreeMap<String, Vec<i64>> = BTreeMap::from([("a".to_string(), vec![1, -2]), ("b".to_string(), vec![])]);
+        ctx.count();
+        match got(guard(|| BTreeMap::<String, Vec<i64>>::try_from(Value::from(map_of_vecs.clone())))) {
+            Got::Ok(x) if x == map_of_vecs => ctx.hit("roundtrip:BTreeMap<String,Vec<i64>>"),
+            other => bad(ctx, "BTreeMap<String,Vec<i64>>", "roundtrip", format!("{other:?}"), &Value::None),
+        }
         let list = vec!["a".to_string(), "".to_string(), "ü".to_string()];
         ctx.count();
         ctx.hit("roundtrip:Vec<String>");
